@@ -86,7 +86,10 @@ def complex_datatypes(v):
 
 
 def message_names(v):
-    return sorted(lib(v).MESSAGES.keys())
+    """names of the message structures a Message can be created for (the tables also carry the templates QBP_Qnn,
+    RTB_Knn, MFN_Znn, RSP_Znn, whose names Message() refuses)"""
+    import re
+    return sorted(n for n in lib(v).MESSAGES.keys() if re.match(r"^[A-Z][A-Z0-9]*(_[A-Z0-9]+)?$", n))
 
 
 def structure(v, name):
